@@ -118,8 +118,12 @@ MAX_STORE = 12   # violations stored in full per (site, kind) group and shard
 
 
 class Ctx:
-    def __init__(self, prop, tier, seed, only=None):
-        self.prop, self.tier, self.seed, self.only = prop, tier, seed, only
+    def __init__(self, prop, tier, seed, only=None, target=None, shard=None, history=()):
+        # only:   replay filter - just this case is executed (plus the transitions leading to it in graph explorations)
+        # target: history replay - EVERYTHING is executed, in the recorded shard order of the worker process that reported the case (state
+        #         kept by the library between calls is part of the history), but only this case is recorded
+        self.prop, self.tier, self.seed, self.only, self.target = prop, tier, seed, only, target
+        self.shard, self.history = shard, list(history)
         self.known = load_known(prop)
         self.evals = 0
         self.keys = set()          # hashes of distinct non-trivial cases
@@ -143,7 +147,8 @@ class Ctx:
 
     def case(self, cid, key=None, trivial=False, n=1):
         """register n executed evaluations for case cid; key identifies the concrete input"""
-        if self.only is not None and cid != self.only:
+        flt = self.only if self.only is not None else self.target
+        if flt is not None and cid != flt:
             return
         self.evals += n
         if not trivial:
@@ -164,12 +169,14 @@ class Ctx:
 
     # -- verdicts
     def fail(self, cid, site, kind, params, detail=''):
-        if self.only is not None and cid != self.only:
+        flt = self.only if self.only is not None else self.target
+        if flt is not None and cid != flt:
             return
-        if self.only is not None and self.evals == 0:
+        if flt is not None and self.evals == 0:
             self.evals = 1          # a derived case id that is reported without a case() of its own still counts as found by the replay
         v = {'property': self.prop, 'case': cid, 'site': site, 'kind': kind,
-             'params': {k: _plain(x) for k, x in params.items()}, 'detail': str(detail)[:600]}
+             'params': {k: _plain(x) for k, x in params.items()}, 'detail': str(detail)[:600],
+             'shard': self.shard, 'worker_history': list(self.history)}
         for k in self.known:
             if k.matches(v):
                 self.known_hits[k.lineno] = self.known_hits.get(k.lineno, 0) + 1
@@ -281,7 +288,9 @@ _W = {}
 def _worker(args):
     modname, tier, seed, only, idx, shard, limit = args
     mod = importlib.import_module(modname)
-    ctx = Ctx(mod.PROP, tier, seed, only)
+    hist = _W.setdefault('hist', [])
+    ctx = Ctx(mod.PROP, tier, seed, only, shard=idx, history=hist)
+    hist.append(idx)
     cov = _W.get('cov')
     if cov is None:
         cov = _W['cov'] = LineCov(getattr(mod, 'ANCHORS', []))
@@ -342,6 +351,26 @@ def run_property(prop, tier, seed, only=None, jobs=None):
             for it in l:
                 if it not in ml and len(ml) < 60:
                     ml.append(it)
+    return mod, merged
+
+
+def history_replay(prop, tier, seed, rec):
+    """re-run, in this (fresh) process and in the recorded order, every shard the reporting worker process had run before the case, then
+    the case's own shard; everything executes, only the case is recorded"""
+    import_repo()
+    modname = 'mc.props.' + prop.lower()
+    mod = importlib.import_module(modname)
+    shards = mod.shards(tier, seed)
+    merged = {'evals': 0, 'viol': {}}
+    seq = list(rec.get('worker_history') or []) + [rec['shard']]
+    for n, idx in enumerate(seq):
+        ctx = Ctx(mod.PROP, tier, seed, None, target=rec['case'], shard=idx, history=seq[:n])
+        mod.run_shard(ctx, shards[idx])
+        merged['evals'] += ctx.evals
+        for g, d in ctx.viol.items():
+            m = merged['viol'].setdefault(g, {'n': 0, 'first': []})
+            m['n'] += d['n']
+            m['first'] += d['first']
     return mod, merged
 
 
@@ -441,6 +470,7 @@ def main(argv):
     ap.add_argument('--replay')
     ap.add_argument('--jobs', type=int)
     ap.add_argument('--no-confirm', action='store_true')
+    ap.add_argument('--history', action='store_true', help='with --replay: re-run the whole recorded shard sequence of the reporting worker')
     a = ap.parse_args(argv)
     prop = a.prop.upper()
     seed = int(os.environ.get('VERIF_SEED', '0') or 0)
@@ -449,7 +479,10 @@ def main(argv):
     if a.replay:
         rec = json.load(open(a.replay))
         tier, seed = rec.get('tier', tier), rec.get('seed', seed)
-        mod, merged = run_property(prop, tier, seed, only=rec['case'])
+        if a.history or rec.get('replay_mode') == 'history':
+            mod, merged = history_replay(prop, tier, seed, rec)
+        else:
+            mod, merged = run_property(prop, tier, seed, only=rec['case'])
         hit = [v for g in merged['viol'].values() for v in g['first'] if v['case'] == rec['case']]
         if merged['evals'] == 0:
             print('REPLAY-ERROR case %s not found in the enumeration' % rec['case'])
@@ -484,6 +517,22 @@ def main(argv):
                 r = subprocess.run([os.path.join(VERIF, 'check'), prop, '--replay', rp],
                                    capture_output=True, text=True, env=dict(os.environ))
                 outs.append((r.returncode, r.stdout))
+            if outs[0] == outs[1] and outs[0][0] == 0 and v.get('shard') is not None:
+                # the case passes when it is the only thing executed: the failure may depend on what the process did before (state kept
+                # by the library between calls).  Replay the recorded history of the reporting worker, twice, in fresh interpreters.
+                houts = []
+                for _ in range(2):
+                    r = subprocess.run([os.path.join(VERIF, 'check'), prop, '--replay', rp, '--history'],
+                                       capture_output=True, text=True, env=dict(os.environ))
+                    houts.append((r.returncode, r.stdout))
+                if houts[0] == houts[1] and houts[0][0] == 1:
+                    rec = json.load(open(rp))
+                    rec['replay_mode'] = 'history'
+                    rec['replay_cmd'] += ' --history'
+                    with open(rp, 'w') as f:
+                        json.dump(rec, f, indent=1, sort_keys=True)
+                    v = dict(v, detail='[depends on the calls made before it in the process: passes alone, fails after the recorded history] ' + v['detail'])
+                    outs = houts
             if outs[0] != outs[1] or outs[0][0] != 1:
                 sys.stderr.write('HARNESS-ERROR replay of %s not reproducible: %r\n' % (rp, outs))
                 return 2
